@@ -4,6 +4,9 @@
 import TinyHttpModel.WireSpec
 import TinyHttpModel.Lemmas.LoopA
 import TinyHttpModel.Lemmas.HeadParse
+import TinyHttpModel.Lemmas.PipelineSmuggle
+import TinyHttpModel.Props.C09
+import TinyHttpModel.Props.C18
 
 namespace TH.Props.C16
 open TH
@@ -74,5 +77,396 @@ example : (Conn.run b!"POST / HTTP/1.1\r\nContent-Length: 5x\r\n\r\nGET /smuggle
     (fun _ => ⟨0, 0, 1, .drop, false⟩)).statuses = [400] := by decide
 example : (Conn.run b!"POST / HTTP/1.1\r\n Transfer-Encoding: chunked\r\n\r\n0\r\n\r\n" .eof
     (fun _ => ⟨0, 0, 1, .drop, false⟩)).delivered.length = 0 := by decide
+
+/-! ### end to end: a pipeline, then a smuggling-prone head, then anything -/
+
+open TH.Props.C09 (CMsg SentBody cmsgBytes wellBodied)
+open TH.Props.C18 (expectBodied expects expectedStatuses)
+
+/-- What "rejected, not interpreted" means for the connection that received the pipeline `msgs`,
+    then the bytes `offending` (a request line in version `v`, header lines, up to and including
+    the offending line — classes (a), (b) — or the whole head — class (c)), then `tail`:
+    1. exactly the requests of `msgs` are delivered, in order, with the heads as sent: the offending
+       request is never delivered and NOTHING of `tail` is parsed as a request;
+    2. none of them is marked as the connection's last request, and every handler obtained a
+       prefix of its own request's content (never a byte of the offending head or of `tail`);
+    3. the statuses are those of `msgs` (`C18.expectedStatuses`: the interim `100`s asked for and
+       expected, the handlers' final statuses), then one 400: the earlier responses come first;
+    4. the connection is closed, everything flushed, and the last thing written is the 400, in the
+       version of the offending request line;
+    5. the WHOLE trace — requests delivered, what each handler read, every byte sent, statuses,
+       ending — is the same for every `tail'` in place of `tail`. -/
+def NeverInterpreted (msgs : List CMsg) (offending : Bytes) (v : Version) (tail : Bytes) (fin : EndState)
+    (script : Script) : Prop :=
+  let t := Conn.run ((msgs.map cmsgBytes).flatten ++ offending ++ tail) fin script
+  t.delivered.map (fun d => (d.method, d.url, d.version, d.headers, d.bodyLength)) =
+      msgs.map (fun m => (m.head.method, m.head.url, m.head.version, m.head.headers, m.body.declared)) ∧
+    t.delivered.length = msgs.length ∧
+    (∀ d ∈ t.delivered, d.last = false) ∧
+    (∀ (i : Nat) (d : Delivered) (m : CMsg), t.delivered[i]? = some d → msgs[i]? = some m →
+      d.bodyRead <+: m.body.payload) ∧
+    t.statuses = expectedStatuses script 0 msgs ++ [400] ∧
+    t.ending = .closed ∧
+    t.flushed = t.out.length ∧
+    (∃ before, t.out = before ++ printError 400 v false) ∧
+    ∀ tail' : Bytes, Conn.run ((msgs.map cmsgBytes).flatten ++ offending ++ tail') fin script = t
+
+/-- for messages without `Expect: 100-continue` (`C09.wellBodied`) the statuses of the pipeline are
+    the handlers' final statuses, one per request (none for a raw writer) -/
+theorem expectedStatuses_wellBodied (msgs : List CMsg) (script : Script)
+    (hgood : ∀ m ∈ msgs, wellBodied m) :
+    expectedStatuses script 0 msgs = finalStatuses script 0 msgs.length := by
+  rw [C18.expectedStatuses_eq_pipeStatuses]
+  refine pipeStatuses_no_expectation expects script msgs (fun m hm => ?_) 0
+  obtain ⟨head, ows, body⟩ := m
+  obtain ⟨_, _, h3, _, _⟩ := hgood _ hm
+  cases body with
+  | plain B =>
+    rcases h3 with h3 | h3 | ⟨_, h3⟩ <;> exact C18.expects_false_of_framing _ _ _ h3
+  | chunked cs zero => exact C18.expects_false_of_framing _ _ _ h3.1
+  | absent => exact C18.expects_false_of_framing _ _ _ h3
+
+/-- The core: any pipeline of requests on a connection that stays open (with or without
+    `Expect: 100-continue`; Content-Length, chunked or no bodies), then bytes the connection loop
+    refuses with a 400 (`Refused400`), then anything. -/
+theorem pipeline_then_refused (msgs : List CMsg) (offending : Bytes) (v : Version) (tail : Bytes)
+    (fin : EndState) (script : Script) (hgood : ∀ m ∈ msgs, expectBodied m)
+    (href : Refused400 offending v fin) :
+    NeverInterpreted msgs offending v tail fin script := by
+  obtain ⟨s', hmap, hlast, hpre, hst, hrun⟩ :=
+    framed_pipeline_then_refused CMsg.head CMsg.ows (fun m => m.body.wire) (fun m => m.body.payload)
+      (fun m => m.body.declared) expects fin msgs
+      (fun m hm => ⟨C18.framedMsgE_of_expectBodied m fin (hgood m hm), (hgood m hm).2.2.2.1⟩) script
+  have hrun' : ∀ tail' : Bytes, Conn.run ((msgs.map cmsgBytes).flatten ++ offending ++ tail') fin script =
+      (s'.emit 400 (some (printError 400 v false)) false).finish .closed :=
+    fun tail' => hrun offending v href tail'
+  unfold NeverInterpreted
+  intro t
+  have ht : t = (s'.emit 400 (some (printError 400 v false)) false).finish .closed := hrun' tail
+  have hd : t.delivered = s'.delivered := by rw [ht]; rfl
+  refine ⟨by rw [hd, hmap], ?_, by rw [hd]; exact hlast, by rw [hd]; exact hpre, ?_, by rw [ht]; rfl, ?_,
+    ⟨s'.out, by rw [ht]; rfl⟩, fun tail' => by rw [ht]; exact hrun' tail'⟩
+  · have := congrArg List.length hmap
+    rw [hd]
+    simpa using this
+  · rw [ht, C18.expectedStatuses_eq_pipeStatuses, ← hst]; rfl
+  · rw [ht]; simp [St.finish]
+
+/-- the part of an offending head before the offending line: a request line (any method, any
+    target, any version the request-line parser recognises — HTTP/0.9, 1.0, 1.1, 2.0, 3.0: a
+    malformed head is refused before the version matters) and any number of well-formed header
+    lines, each rendered with any optional whitespace around its value -/
+def frontOk (front : Head) (ows : List (Bytes × Bytes)) : Prop :=
+  wfAnyVersion front ∧ ∀ o ∈ ows, Spec.isOwsList o.1 = true ∧ Spec.isOwsList o.2 = true
+
+/-- Class (a), end to end.  A pipeline of any number of `C09.wellBodied` requests, then a head made
+    of a well-formed request line, any number of well-formed header lines (`front`, `ows`) and the
+    header line `pre w post ":" value` where `w` is a whitespace byte (SP = 32 and HTAB = 9 are the
+    cases of the statement; the other bytes `isWs` knows — VT, FF, CR — are refused alike) and
+    `pre`, `post` hold no colon: whitespace INSIDE the header name (`post` not empty) or BETWEEN the
+    name and the colon (`post` empty, or more whitespace).  Then ARBITRARY bytes `tail` — further
+    header lines, an empty line, a body, more requests, or nothing: the head need not be terminated.
+    ANY script, the client's stream ending in ANY way (`fin`: still connected, closed, reset).
+    Then `NeverInterpreted`: exactly the requests of `msgs` are delivered, the answers to them come
+    first, then a 400, the connection is closed, and the trace is the same for every `tail`. -/
+theorem pipeline_then_ws_in_header (msgs : List CMsg) (front : Head) (ows : List (Bytes × Bytes))
+    (pre : Bytes) (w : Nat) (post value tail : Bytes) (fin : EndState) (script : Script)
+    (hgood : ∀ m ∈ msgs, wellBodied m) (hfront : frontOk front ows)
+    (hw : isWs w = true) (hname : ∀ b ∈ pre ++ post, b ≠ 58)
+    (hsafe : ∀ b ∈ pre ++ [w] ++ post ++ [58] ++ value, b ≠ 10 ∧ b < 128) :
+    NeverInterpreted msgs (Spec.renderFront front ows ++ (pre ++ [w] ++ post ++ [58] ++ value ++ crlf))
+      front.version tail fin script :=
+  pipeline_then_refused msgs _ _ tail fin script (fun m hm => C18.wellBodied_expectBodied m (hgood m hm))
+    (refused400_rejected_line front ows _ fin hfront.1 hfront.2
+      (rejectedLine_ws_in_name pre post value w hw
+        (fun b hb => hname b (List.mem_append.2 (Or.inl hb)))
+        (fun b hb => hname b (List.mem_append.2 (Or.inr hb))) hsafe))
+
+/-- Class (b), end to end.  As `pipeline_then_ws_in_header`, the offending line being ANY line that
+    begins with a whitespace byte `w` (obsolete line folding: ` Transfer-Encoding: chunked`,
+    `\t continued value`, a line of blanks), at ANY position after the request line — `front` may
+    have no header at all, so the line directly after the request line is included. -/
+theorem pipeline_then_obs_fold (msgs : List CMsg) (front : Head) (ows : List (Bytes × Bytes))
+    (w : Nat) (l tail : Bytes) (fin : EndState) (script : Script)
+    (hgood : ∀ m ∈ msgs, wellBodied m) (hfront : frontOk front ows)
+    (hw : isWs w = true) (hsafe : ∀ b ∈ w :: l, b ≠ 10 ∧ b < 128) :
+    NeverInterpreted msgs (Spec.renderFront front ows ++ (w :: l ++ crlf)) front.version tail fin script :=
+  pipeline_then_refused msgs _ _ tail fin script (fun m hm => C18.wellBodied_expectBodied m (hgood m hm))
+    (refused400_rejected_line front ows _ fin hfront.1 hfront.2 (rejectedLine_leading_ws w l hw hsafe))
+
+/-- Class (c), end to end.  A pipeline of any number of `C09.wellBodied` requests, then a COMPLETE,
+    otherwise well-formed head (`head`, rendered with any optional whitespace `ows`; any recognised
+    version) among whose headers — at any position, next to any other headers: `Transfer-Encoding:
+    chunked`, `Expect`, `Connection: upgrade`, a second, valid Content-Length — there is a header
+    `c` named Content-Length in ANY letter case (`Header.is`) whose value is not a plain decimal
+    number the server can represent (`strictContentLength c.value = none`: empty, signed, a
+    non-digit anywhere, a list, more than `usize::MAX`).  Then ARBITRARY bytes `tail`: what the
+    client meant as the body, more requests.  Then `NeverInterpreted`: here the bytes after the HEAD
+    are the ones without influence. -/
+theorem pipeline_then_bad_content_length (msgs : List CMsg) (head : Head) (ows : List (Bytes × Bytes))
+    (c : Header) (tail : Bytes) (fin : EndState) (script : Script)
+    (hgood : ∀ m ∈ msgs, wellBodied m) (hhead : frontOk head ows)
+    (hc : c ∈ head.headers) (hn : c.is b!"Content-Length" = true)
+    (hv : strictContentLength c.value = none) :
+    NeverInterpreted msgs (Spec.renderHead head ows) head.version tail fin script :=
+  pipeline_then_refused msgs _ _ tail fin script (fun m hm => C18.wellBodied_expectBodied m (hgood m hm))
+    (refused400_bad_content_length head ows fin hhead.1 hhead.2 c hc hn hv)
+
+/-- the three classes of the statement as one type -/
+inductive Offending where
+  /-- (a) `front`, then the line `pre w post ":" value` -/
+  | wsInName (front : Head) (ows : List (Bytes × Bytes)) (pre : Bytes) (w : Nat) (post value : Bytes)
+  /-- (b) `front`, then the line `w l` -/
+  | obsFold (front : Head) (ows : List (Bytes × Bytes)) (w : Nat) (l : Bytes)
+  /-- (c) the complete head `head`, one of whose headers is the Content-Length `c` -/
+  | badLength (head : Head) (ows : List (Bytes × Bytes)) (c : Header)
+
+/-- the bytes of the offending head: up to and including the offending line for (a) and (b), the
+    whole head for (c) -/
+def Offending.bytes : Offending → Bytes
+  | .wsInName front ows pre w post value =>
+    Spec.renderFront front ows ++ (pre ++ [w] ++ post ++ [58] ++ value ++ crlf)
+  | .obsFold front ows w l => Spec.renderFront front ows ++ (w :: l ++ crlf)
+  | .badLength head ows _ => Spec.renderHead head ows
+
+def Offending.version : Offending → Version
+  | .wsInName front _ _ _ _ _ => front.version
+  | .obsFold front _ _ _ => front.version
+  | .badLength head _ _ => head.version
+
+/-- the hypotheses of the three theorems above -/
+def Offending.ok : Offending → Prop
+  | .wsInName front ows pre w post value =>
+    frontOk front ows ∧ isWs w = true ∧ (∀ b ∈ pre ++ post, b ≠ 58) ∧
+      ∀ b ∈ pre ++ [w] ++ post ++ [58] ++ value, b ≠ 10 ∧ b < 128
+  | .obsFold front ows w l => frontOk front ows ∧ isWs w = true ∧ ∀ b ∈ w :: l, b ≠ 10 ∧ b < 128
+  | .badLength head ows c =>
+    frontOk head ows ∧ c ∈ head.headers ∧ c.is b!"Content-Length" = true ∧ strictContentLength c.value = none
+
+/-- every offending head is refused with a 400 by one iteration of the connection loop, in any
+    state, whatever follows it -/
+theorem Offending.refused (o : Offending) (ho : o.ok) (fin : EndState) : Refused400 o.bytes o.version fin := by
+  cases o with
+  | wsInName front ows pre w post value =>
+    obtain ⟨hfront, hw, hname, hsafe⟩ := ho
+    exact refused400_rejected_line front ows _ fin hfront.1 hfront.2
+      (rejectedLine_ws_in_name pre post value w hw
+        (fun b hb => hname b (List.mem_append.2 (Or.inl hb)))
+        (fun b hb => hname b (List.mem_append.2 (Or.inr hb))) hsafe)
+  | obsFold front ows w l =>
+    obtain ⟨hfront, hw, hsafe⟩ := ho
+    exact refused400_rejected_line front ows _ fin hfront.1 hfront.2 (rejectedLine_leading_ws w l hw hsafe)
+  | badLength head ows c =>
+    obtain ⟨hhead, hc, hn, hv⟩ := ho
+    exact refused400_bad_content_length head ows fin hhead.1 hhead.2 c hc hn hv
+
+/-- C16, end to end.  A pipeline of any number of requests on a connection that stays open — here
+    also requests that say `Expect: 100-continue` (`C18.expectBodied`, which `C09.wellBodied`
+    implies) —, then a head of ANY of the three smuggling-prone classes, then ARBITRARY bytes, any
+    script, any end of the client's stream: the offending request is never delivered, nothing after
+    it is parsed as a request, the client gets the answers to the earlier requests and then a 400,
+    the connection is closed, and the bytes after the offending line (classes a, b) / head (class c)
+    have no influence on anything the server does. -/
+theorem smuggling_head_never_interpreted (msgs : List CMsg) (o : Offending) (tail : Bytes) (fin : EndState)
+    (script : Script) (hgood : ∀ m ∈ msgs, expectBodied m) (ho : o.ok) :
+    NeverInterpreted msgs o.bytes o.version tail fin script :=
+  pipeline_then_refused msgs o.bytes o.version tail fin script hgood (o.refused ho fin)
+
+/-- the smuggling itself, on its own: two streams that differ only after the offending line / head
+    give the same trace — a request hidden there is never seen. -/
+theorem bytes_after_smuggling_head_ignored (msgs : List CMsg) (o : Offending) (tail tail' : Bytes)
+    (fin : EndState) (script : Script) (hgood : ∀ m ∈ msgs, expectBodied m) (ho : o.ok) :
+    Conn.run ((msgs.map cmsgBytes).flatten ++ o.bytes ++ tail) fin script =
+      Conn.run ((msgs.map cmsgBytes).flatten ++ o.bytes ++ tail') fin script :=
+  ((smuggling_head_never_interpreted msgs o tail fin script hgood ho).2.2.2.2.2.2.2.2 tail').symm
+
+/-- …and in the words of the property: the number of requests delivered is the number of requests
+    before the offending head, the last status is 400, the connection is closed. -/
+theorem smuggling_head_summary (msgs : List CMsg) (o : Offending) (tail : Bytes) (fin : EndState)
+    (script : Script) (hgood : ∀ m ∈ msgs, expectBodied m) (ho : o.ok) :
+    let t := Conn.run ((msgs.map cmsgBytes).flatten ++ o.bytes ++ tail) fin script
+    t.delivered.length = msgs.length ∧ t.statuses.getLast? = some 400 ∧ t.ending = .closed := by
+  intro t
+  obtain ⟨_, h2, _, _, h5, h6, _⟩ := smuggling_head_never_interpreted msgs o tail fin script hgood ho
+  refine ⟨h2, ?_, h6⟩
+  show t.statuses.getLast? = some 400
+  rw [h5]
+  simp
+
+/-! non-vacuity: `GET /a HTTP/1.1` with a Host header, then an offending `POST /b` of each class,
+    then a smuggled request -/
+
+def exA : CMsg := ⟨⟨⟨b!"GET"⟩, b!"/a", ⟨1, 1⟩, [⟨b!"Host", b!"x"⟩]⟩, [(b!" ", [])], .absent⟩
+
+theorem exA_wellBodied : ∀ m ∈ [exA], wellBodied m := by
+  intro m hm
+  simp only [List.mem_cons, List.not_mem_nil, or_false] at hm
+  subst hm
+  refine ⟨by decide, by decide, ?_, by decide, by decide⟩
+  show framingOf exA.head.headers = .ok ⟨.empty, none, false⟩
+  decide
+
+def exSmuggled : Bytes := b!"GET /smuggled HTTP/1.1\r\n\r\n"
+
+/-- a script that drops every request: the automatic 500 -/
+def exDrop : Script := fun _ => ⟨0, 0, 1, .drop, false⟩
+
+/-- a script whose handlers read 8 bytes with a 3-byte buffer and answer 200 -/
+def exAnswer : Script := fun _ => ⟨1, 8, 3, .respond ⟨200, [], none, none, [b!"ok"]⟩, false⟩
+
+/-- (b) obs-fold: ` Transfer-Encoding: chunked` after `Host: x`, before a Content-Length -/
+def exFold : Offending :=
+  .obsFold ⟨⟨b!"POST"⟩, b!"/b", ⟨1, 1⟩, [⟨b!"Host", b!"x"⟩]⟩ [(b!" ", [])] 32 b!"Transfer-Encoding: chunked"
+
+theorem exFold_ok : exFold.ok := by
+  refine ⟨⟨⟨by decide, by decide⟩, by decide⟩, by decide, by decide⟩
+
+/-- the bytes on the wire -/
+theorem exFold_wire :
+    ([exA].map cmsgBytes).flatten ++ exFold.bytes ++ (b!"Content-Length: 4\r\n\r\n" ++ exSmuggled) =
+      b!"GET /a HTTP/1.1\r\nHost: x\r\n\r\nPOST /b HTTP/1.1\r\nHost: x\r\n Transfer-Encoding: chunked\r\nContent-Length: 4\r\n\r\nGET /smuggled HTTP/1.1\r\n\r\n" := by
+  decide
+
+/-- so the theorem applies, with every script, every end of the client's stream and every tail:
+    one request delivered, the last status is 400, closed -/
+example (script : Script) (fin : EndState) (tail : Bytes) :
+    let t := Conn.run (([exA].map cmsgBytes).flatten ++ exFold.bytes ++ tail) fin script
+    t.delivered.map (·.url) = [b!"/a"] ∧ t.statuses = Spec.finishStatus (script 0).fin ++ [400] ∧
+      t.ending = .closed := by
+  intro t
+  obtain ⟨h1, _, _, _, h5, h6, _⟩ :=
+    smuggling_head_never_interpreted [exA] exFold tail fin script
+      (fun m hm => C18.wellBodied_expectBodied m (exA_wellBodied m hm)) exFold_ok
+  refine ⟨?_, ?_, h6⟩
+  · have := congrArg (List.map (fun x : Method × Bytes × Version × List Header × Option Nat => x.2.1)) h1
+    rw [List.map_map] at this
+    exact this
+  · show t.statuses = _
+    rw [h5, expectedStatuses_wellBodied [exA] script exA_wellBodied]
+    simp [finalStatuses]
+
+set_option maxRecDepth 8192 in
+/-- the model run on it: `/a` is delivered and answered, `/b` and `/smuggled` are not, 400, closed -/
+example :
+    let t := Conn.run b!"GET /a HTTP/1.1\r\nHost: x\r\n\r\nPOST /b HTTP/1.1\r\nHost: x\r\n Transfer-Encoding: chunked\r\nContent-Length: 4\r\n\r\nGET /smuggled HTTP/1.1\r\n\r\n" .eof exDrop
+    t.delivered.map (·.url) = [b!"/a"] ∧ t.statuses = [500, 400] ∧ t.ending = .closed := by
+  decide
+
+set_option maxRecDepth 8192 in
+/-- the same with the client still connected and handlers that read and answer 200 -/
+example :
+    let t := Conn.run b!"GET /a HTTP/1.1\r\nHost: x\r\n\r\nPOST /b HTTP/1.1\r\nHost: x\r\n Transfer-Encoding: chunked\r\nContent-Length: 4\r\n\r\nGET /smuggled HTTP/1.1\r\n\r\n" .open exAnswer
+    t.delivered.map (·.url) = [b!"/a"] ∧ t.statuses = [200, 400] ∧ t.ending = .closed := by
+  decide
+
+set_option maxRecDepth 8192 in
+/-- obs-fold directly after the request line, with a HTAB -/
+example :
+    let t := Conn.run b!"GET /a HTTP/1.1\r\nHost: x\r\n\r\nPOST /b HTTP/1.1\r\n\tHost: x\r\n\r\nGET /smuggled HTTP/1.1\r\n\r\n" .eof exDrop
+    t.delivered.map (·.url) = [b!"/a"] ∧ t.statuses = [500, 400] ∧ t.ending = .closed := by
+  decide
+
+/-- (b) directly after the request line: `front` without headers -/
+def exFoldFirst : Offending := .obsFold ⟨⟨b!"POST"⟩, b!"/b", ⟨1, 1⟩, []⟩ [] 9 b!"Host: x"
+
+theorem exFoldFirst_ok : exFoldFirst.ok := by
+  refine ⟨⟨⟨by decide, by decide⟩, by decide⟩, by decide, by decide⟩
+
+example : ([exA].map cmsgBytes).flatten ++ exFoldFirst.bytes ++ (crlf ++ exSmuggled) =
+    b!"GET /a HTTP/1.1\r\nHost: x\r\n\r\nPOST /b HTTP/1.1\r\n\tHost: x\r\n\r\nGET /smuggled HTTP/1.1\r\n\r\n" := by
+  decide
+
+/-- (a) `Content-Length : 5`: a space between the name and the colon -/
+def exWs : Offending :=
+  .wsInName ⟨⟨b!"POST"⟩, b!"/b", ⟨1, 1⟩, [⟨b!"Host", b!"x"⟩]⟩ [(b!" ", [])] b!"Content-Length" 32 [] b!" 5"
+
+theorem exWs_ok : exWs.ok := by
+  refine ⟨⟨⟨by decide, by decide⟩, by decide⟩, by decide, by decide, by decide⟩
+
+theorem exWs_wire :
+    ([exA].map cmsgBytes).flatten ++ exWs.bytes ++ (crlf ++ b!"hello" ++ exSmuggled) =
+      b!"GET /a HTTP/1.1\r\nHost: x\r\n\r\nPOST /b HTTP/1.1\r\nHost: x\r\nContent-Length : 5\r\n\r\nhelloGET /smuggled HTTP/1.1\r\n\r\n" := by
+  decide
+
+set_option maxRecDepth 8192 in
+example :
+    let t := Conn.run b!"GET /a HTTP/1.1\r\nHost: x\r\n\r\nPOST /b HTTP/1.1\r\nHost: x\r\nContent-Length : 5\r\n\r\nhelloGET /smuggled HTTP/1.1\r\n\r\n" .eof exDrop
+    t.delivered.map (·.url) = [b!"/a"] ∧ t.statuses = [500, 400] ∧ t.ending = .closed := by
+  decide
+
+/-- (a) `Content Length: 5`: a space inside the name, in an HTTP/2.0 request: 400, not 505 -/
+def exWsIn : Offending :=
+  .wsInName ⟨⟨b!"POST"⟩, b!"/b", ⟨2, 0⟩, []⟩ [] b!"Content" 32 b!"Length" b!" 5"
+
+theorem exWsIn_ok : exWsIn.ok := by
+  refine ⟨⟨⟨by decide, by decide⟩, by decide⟩, by decide, by decide, by decide⟩
+
+set_option maxRecDepth 8192 in
+example :
+    let t := Conn.run (([exA].map cmsgBytes).flatten ++ exWsIn.bytes ++ (crlf ++ b!"hello" ++ exSmuggled)) .eof exDrop
+    t.delivered.map (·.url) = [b!"/a"] ∧ t.statuses = [500, 400] ∧ t.ending = .closed := by
+  decide
+
+/-- (c) `content-length: +5`: lower-case name, signed value -/
+def exPlus : Offending :=
+  .badLength ⟨⟨b!"POST"⟩, b!"/b", ⟨1, 1⟩, [⟨b!"Host", b!"x"⟩, ⟨b!"content-length", b!"+5"⟩]⟩
+    [(b!" ", []), (b!" ", [])] ⟨b!"content-length", b!"+5"⟩
+
+theorem exPlus_ok : exPlus.ok := by
+  refine ⟨⟨⟨by decide, by decide⟩, by decide⟩, by decide, by decide, by decide⟩
+
+theorem exPlus_wire :
+    ([exA].map cmsgBytes).flatten ++ exPlus.bytes ++ (b!"hello" ++ exSmuggled) =
+      b!"GET /a HTTP/1.1\r\nHost: x\r\n\r\nPOST /b HTTP/1.1\r\nHost: x\r\ncontent-length: +5\r\n\r\nhelloGET /smuggled HTTP/1.1\r\n\r\n" := by
+  decide
+
+set_option maxRecDepth 8192 in
+example :
+    let t := Conn.run b!"GET /a HTTP/1.1\r\nHost: x\r\n\r\nPOST /b HTTP/1.1\r\nHost: x\r\ncontent-length: +5\r\n\r\nhelloGET /smuggled HTTP/1.1\r\n\r\n" .eof exDrop
+    t.delivered.map (·.url) = [b!"/a"] ∧ t.statuses = [500, 400] ∧ t.ending = .closed := by
+  decide
+
+/-- (c) `Content-Length: 18446744073709551616`: one more than `usize::MAX`, next to
+    `Transfer-Encoding: chunked` -/
+def exOverflow : Offending :=
+  .badLength ⟨⟨b!"POST"⟩, b!"/b", ⟨1, 1⟩,
+      [⟨b!"Transfer-Encoding", b!"chunked"⟩, ⟨b!"Content-Length", b!"18446744073709551616"⟩]⟩
+    [(b!" ", []), (b!" ", [])] ⟨b!"Content-Length", b!"18446744073709551616"⟩
+
+theorem exOverflow_ok : exOverflow.ok := by
+  refine ⟨⟨⟨by decide, by decide⟩, by decide⟩, by decide, by decide, by decide⟩
+
+theorem exOverflow_wire :
+    ([exA].map cmsgBytes).flatten ++ exOverflow.bytes ++ (b!"0\r\n\r\n" ++ exSmuggled) =
+      b!"GET /a HTTP/1.1\r\nHost: x\r\n\r\nPOST /b HTTP/1.1\r\nTransfer-Encoding: chunked\r\nContent-Length: 18446744073709551616\r\n\r\n0\r\n\r\nGET /smuggled HTTP/1.1\r\n\r\n" := by
+  decide
+
+set_option maxRecDepth 8192 in
+example :
+    let t := Conn.run b!"GET /a HTTP/1.1\r\nHost: x\r\n\r\nPOST /b HTTP/1.1\r\nTransfer-Encoding: chunked\r\nContent-Length: 18446744073709551616\r\n\r\n0\r\n\r\nGET /smuggled HTTP/1.1\r\n\r\n" .eof exDrop
+    t.delivered.map (·.url) = [b!"/a"] ∧ t.statuses = [500, 400] ∧ t.ending = .closed := by
+  decide
+
+/-- the largest representable value is NOT in class (c): the request is delivered -/
+example : strictContentLength b!"18446744073709551615" = some usizeMax ∧
+    strictContentLength b!"18446744073709551616" = none ∧ strictContentLength b!"+5" = none ∧
+    strictContentLength [] = none ∧ strictContentLength b!"5, 5" = none := by decide
+
+/-- every class, every script, every end of stream, every tail: as the property says -/
+example (o : Offending) (ho : o ∈ [exFold, exFoldFirst, exWs, exWsIn, exPlus, exOverflow])
+    (script : Script) (fin : EndState) (tail : Bytes) :
+    let t := Conn.run (([exA].map cmsgBytes).flatten ++ o.bytes ++ tail) fin script
+    t.delivered.length = 1 ∧ t.statuses.getLast? = some 400 ∧ t.ending = .closed := by
+  have hok : o.ok := by
+    simp only [List.mem_cons, List.not_mem_nil, or_false] at ho
+    rcases ho with rfl | rfl | rfl | rfl | rfl | rfl
+    · exact exFold_ok
+    · exact exFoldFirst_ok
+    · exact exWs_ok
+    · exact exWsIn_ok
+    · exact exPlus_ok
+    · exact exOverflow_ok
+  exact smuggling_head_summary [exA] o tail fin script
+    (fun m hm => C18.wellBodied_expectBodied m (exA_wellBodied m hm)) hok
 
 end TH.Props.C16
